@@ -1136,7 +1136,7 @@ def gen_replays(ctx):
     for scenario in SCENARIOS:
         for _ in range(ctx.budget(2, 20)):
             out.append(dict(stream="system", seed=rng.randint(0, 10 ** 9), scenario=scenario))
-    for _ in range(ctx.budget(30, 900)):
+    for _ in range(ctx.budget(30, 700)):
         out.append(dict(stream="system", seed=rng.randint(0, 10 ** 9)))
     probe = sorted(s for s in FINDING_SHAPES if enabled(s))
     for rep in out:
